@@ -14,8 +14,8 @@ RULE = ("rt: cap objects of every kind from random fields (k/N/size up to 2^80) 
         "(and, for MDMF kinds only, ':'-introduced extension fields) and whose class matches the URI:<kind>: prefix. Non-trivial = mutated string that is still "
         "accepted as a known kind, or any rt case with a field >= 2^32; distinct by input string.")
 LEVEL_TEXT = "Search over generated and mutated capability strings with a canonical-form oracle; round trip exactness for every kind."
-ASSUMPTIONS = ["an exception escaping from_string() for a bytes input counts as rejection (is_uri() treats AssertionError/TypeError that way)"]
-REQUIRED_CLASSES = ["rt", "mut-accepted", "mut-unknown", "mdmf-extension-accepted", "prefix-ro", "prefix-imm"]
+ASSUMPTIONS = ["an AssertionError or TypeError escaping from_string() for a bytes input counts as rejection (is_uri() treats them that way); any other exception is a parser crash"]
+REQUIRED_CLASSES = ["huge-number", "rt", "mut-accepted", "mut-unknown", "mdmf-extension-accepted", "prefix-ro", "prefix-imm"]
 BUDGET = {"quick": 600, "thorough": 3600}
 
 
@@ -36,6 +36,8 @@ def mutation():
         st.tuples(st.sampled_from(["set", "ins", "del"]), st.integers(0, 255), st.integers(0, 400)),
         st.tuples(st.just("lastb32"), st.sampled_from(list(b32)), st.integers(0, 3)),
         st.tuples(st.just("num"), st.sampled_from(["0", "00", "+", " ", "-", "0x"]), st.integers(0, 2)),
+        # a numeric field longer than Python converts by default (4300 digits), and one just below
+        st.tuples(st.just("numhuge"), st.sampled_from(["4299", "4300", "4301", "9000"]), st.integers(0, 2)),
         st.tuples(st.just("prefix"), st.sampled_from(["ro.", "imm.", "ro.imm.", "imm.ro.", "RO.", " "]), st.just(0)),
         st.tuples(st.just("case"), st.sampled_from(["upper", "lower", "swap_kind"]), st.just(0)),
         st.tuples(st.just("fieldlen"), st.sampled_from(["a", "aa", ""]), st.integers(0, 3)),
@@ -112,6 +114,12 @@ def apply_mut(s, m):
             f = fields[b % len(fields)]
             return s[:f.end() - 1] + a.encode() + s[f.end():]
         return s
+    if op == "numhuge":
+        nums = list(re.finditer(rb":(\d+)", s))
+        if nums:
+            f = nums[b % len(nums)]
+            return s[:f.start(1)] + b"7" * int(a) + s[f.end(1):]
+        return s
     if op == "num":
         nums = list(re.finditer(rb":(\d+)", s))
         if nums:
@@ -141,8 +149,12 @@ def parse_oracle(ctx, s, classes):
     from allmydata import uri
     try:
         r = uri.from_string(s)
-    except Exception as e:
+    except (AssertionError, TypeError):
+        # the two exception types the module's own is_uri() treats as "not a cap"
         classes.append("raised")
+        return None
+    except Exception as e:
+        ctx.fail("parser-crash", "from_string(%r%s) raised %r: neither a known capability nor reported as unknown" % (s[:80], "..." if len(s) > 80 else "", e), exc=type(e).__name__)
         return None
     if isinstance(r, uri.UnknownURI):
         ctx.check(r.to_string() == s, "unknown-not-echoed", "UnknownURI.to_string()=%r for input %r" % (r.to_string(), s))
@@ -215,10 +227,12 @@ def run_case(case, ctx):
         orig = None
     r = parse_oracle(ctx, s, classes)
     known = "known" in classes
+    if case["fam"] == "mut" and any(m[0] == "numhuge" for m in case["muts"]) and re.search(rb"\d{4000}", s):
+        classes.append("huge-number")
     if case["fam"] == "mut":
         classes.append("mut-accepted" if known else ("mut-unknown" if "unknown" in classes else "mut-raised"))
         nt = known and s != orig
     else:
         classes.append("raw-accepted" if known else "raw-rejected")
         nt = known
-    ctx.note(sig=s, nontrivial=nt, classes=classes, sample={"fam": case["fam"], "input": s.decode("latin1"), "result": classes})
+    ctx.note(sig=s, nontrivial=nt, classes=classes, sample={"fam": case["fam"], "input": s.decode("latin1")[:300], "result": classes})
